@@ -251,7 +251,12 @@ var bg = context.Background()
 var dmLog = logger.NewNamed("verif.c07")
 
 func runCombo(local, remote *side, pr params, cb combo, keep bool) outcome {
+	// step watchdog on the Ranges round trips: 64*df*(|A|+|B|+1) as designed, capped so that a hit costs
+	// seconds, not hours (a correct diff needs at most two round trips per subdivision level, i.e. < 200)
 	limit := 64 * pr.df * (len(local.m) + len(remote.m) + 1)
+	if limit > 100000 {
+		limit = 100000
+	}
 	var inner ldiff.Remote
 	var hs *ldiffkit.HSClient
 	var kv *ldiffkit.KVClient
